@@ -187,6 +187,8 @@ def observe(case):
         run = {"cfg": (std, ic, pd), "o": o}
         if o["res"] == "ok":
             s1 = fp.text(t)
+            if fp.text(t) != s1:
+                run["o"] = dict(o, res="esc", type="ImpurePrint", site="str(tree)", via="", msg="printing the same tree twice gives different text")
             run["st"] = h(fp.struct(t))
             run["sci"] = h(fp.struct(t, ci=True))
             run["text"] = h(s1)
@@ -203,6 +205,12 @@ def observe(case):
                 run["tables"] = fp.tables()
                 run["scope"] = fp.scope()
             if "copy" in want:
+                # a tree is used before it is copied: walk it and ask some nodes for their root and parent
+                for n_ in all_nodes(t)[:: max(1, len(all_nodes(t)) // 7)]:
+                    if hasattr(n_, "get_root"):
+                        n_.get_root()
+                        getattr(n_, "parent", None)
+                wf(t)
                 run["copies"] = [do_copy(t, "deepcopy"), do_copy(t, "pickle"), do_copy(t, "pickle-fresh")]
             if "reparse" in want:
                 o2, t2 = fp.parse(fp.create(std), s1, ignore_comments=ic, process_directives=pd)
